@@ -246,6 +246,8 @@ def run(ctx):
     directed += relgen.systematic_cases(2, dict(SAFE, force_shape=["join_inline", "group_inner", "append_let"]), seed=73,
                                         kinds=["select", "derive", "filter", "sort", "take", "aggregate", "group_take", "join", "append"])
     ctx.coverage_extra["directed_bind_cases"] = len(directed)
+    for c_ in directed:
+        c_.det = True          # seed independent: a listed finding excuses such a case only if this very input is in the ledger
     gen_cases = directed + gen_cases
     for target in ("sql.sqlite", "sql.generic"):
         res = relcheck.run_cases(gen_cases, target)
@@ -253,6 +255,7 @@ def run(ctx):
             ctx.case((c.prql, target, "bind"), nontrivial=r["status"] not in ("compile-error",))
             ctx.count(f"bind:{target}:{r['status']}")
             if r["status"] == "sqlite-error":
+                orig = c
                 fid = relcheck.classify(c, r, target)
                 if target == "sql.generic" and fid is None and re.search(r"no such function: CONCAT", r["detail"]):
                     continue    # engine limitation of SQLite 3.40 for the generic dialect, not a defect of the compiler
@@ -261,7 +264,8 @@ def run(ctx):
                     if relcheck.classify(c2, r2, target) == fid:
                         c, r = c2, r2
                 ctx.oracle_failure(fid, f"{target}: SQLite rejects the emitted SQL: {r['detail']}",
-                                   {"prql": c.prql, "target": target, "sql": r.get("sql"), "db": c.db, "schema": c.schema_list, "detail": r["detail"], "class": fid})
+                                   {"prql": c.prql, "target": target, "sql": r.get("sql"), "db": c.db, "schema": c.schema_list, "detail": r["detail"], "class": fid},
+                                   det_key=(orig.prql, target, "bind") if getattr(orig, "det", False) else None)
     ctx.obligation("oracle: accepted programs parse in their dialect and bind on SQLite (all unlisted cases)",
                    not [v for v in ctx.violations if v["kind"] == "failing-input"], f"{len(pmeta)} (program, dialect) pairs parsed")
 
